@@ -1,6 +1,7 @@
 #!/usr/bin/env python
 
 import xml.etree.ElementTree as etree
+import copy
 from io import BytesIO
 from itertools import chain
 
@@ -304,10 +305,12 @@ class XMLBIFWriter(object):
         """
         Return the XML as string.
         """
+        # Indent a copy: indent() works in place and isn't idempotent.
+        xml = copy.deepcopy(self.xml)
         if self.prettyprint:
-            self.indent(self.xml)
+            self.indent(xml)
         f = BytesIO()
-        et = etree.ElementTree(self.xml)
+        et = etree.ElementTree(xml)
         et.write(f, encoding=self.encoding, xml_declaration=True)
         return f.getvalue().decode(self.encoding)
 
